@@ -478,6 +478,9 @@ func vCaseC33(t *rapid.T, st *verifkit.Stats) {
 		fail("index differs from the pack headers (first = index, second = headers of readable packs): %s", d)
 	}
 	classes = append(classes, fmt.Sprintf("listed_twice=%v", len(gotSet) != len(got)))
+	if len(gotSet) != len(got) {
+		st.Note("listed_twice_example", vJSON(h))
+	}
 
 	// restic's own loader sees the same index
 	var loaded []vEntC10
@@ -490,8 +493,8 @@ func vCaseC33(t *rapid.T, st *verifkit.Stats) {
 			if !ok {
 				panic(fmt.Sprintf("unexpected PackBlob implementation %T", pb))
 			}
-			loaded = append(loaded, vEntC10{Pack: b.PackID().String(), Type: b.Type.String(), ID: b.ID.String(),
-				Off: b.Offset, Len: b.Length, ULen: b.UncompressedLength})
+			loaded = append(loaded, vEntC10{Pack: b.Pack.String(), Type: b.Blob.Type.String(), ID: b.Blob.ID.String(),
+				Off: b.Blob.Offset, Len: b.Blob.Length, ULen: b.Blob.UncompressedLength})
 		})
 	})
 	if err != nil {
